@@ -95,5 +95,10 @@ CHECKS = {
   "note": "Trusted: the input transformation in vlib/transform.py and the output field map (which columns/event payloads are coordinates, which are distances). One recorded known finding (polyA/polyT coordinate convention differs by 1-2 bp) is recognised only when nothing but that coordinate differs.",
   "technique": "metamorphic differential monitoring (transformed executions vs transformed outputs)",
  },
+ "C01": {
+  "text": "read_assignments.tsv of CLI runs (four matching presets x three data types) is joined with the generator's truth: conforming reads (derived from an annotated isoform by truncation, junction jitter <= documented delta, exonic indels, polyA/polyT at the 3' end, mono-exonic sub-reads) must get a consistent type, only structurally compatible isoforms, their source isoform when full-length, and a unique assignment when it is the only compatible one; reads that differ from every overlapping isoform by a hard difference (skipped/extra exon, retained intron, site shifted >= 110 bp, end extended >= 420 bp, hidden isoforms) must not get a consistent type. Worlds: multi-isoform, shared-exon and antisense genes, both strands, 3 chromosomes; splice sites of a locus identical or >= 30 bp apart. Sampled worlds.",
+  "note": "Trusted: independent compatibility model (vlib/oracles/compat.py), generator truth; nothing is generated in the grey zone between tolerances and 'far beyond'; which consistent type is chosen is never asserted. One recorded known finding (terminal exon of similar length taken for a misalignment) is keyed by the reported event.",
+  "technique": "offline checker over reported assignments vs generator truth with an independent reference model",
+ },
 }
 NOT_APPLICABLE = {}
